@@ -52,6 +52,8 @@ func (g *Group) render(f *File, w io.Writer, s *Statement) error {
 		grp, isGrp := prev.(*Group)
 		tkn, isTkn := prev.(token)
 		if isGrp && grp.name == "case" || isTkn && tkn.content == "default" {
+			// restore the braces after rendering: the block may be rendered again, or be used elsewhere
+			defer func(open, close string) { g.open, g.close = open, close }(g.open, g.close)
 			g.open = ""
 			g.close = ""
 		}
